@@ -55,13 +55,13 @@ class C03(Prop):
             r = rng.random()
             if r < 0.45:
                 m = rng.randint(1, 7)
-                alts = gen.alt_ids(rng, m)
+                alts = gen.alt_ids(rng, m, zero_ok=True)
                 orders = [list(o) for o in gen.strict_orders(rng, alts, rng.randint(1, 6))]
                 yield {"kind": "profile", "alts": gen.perm(rng, alts) if rng.random() < 0.3 else alts,
                        "orders": orders, "planted": None}
             else:
                 m = rng.choice([3, 4, 5, 6, 7, 9, 12, 20, 30])
-                alts = gen.alt_ids(rng, m)
+                alts = gen.alt_ids(rng, m, zero_ok=True)
                 axis = gen.perm(rng, alts)
                 nn = rng.choice([2, 3, 5, 8, 20, 60, 200]) if m > 7 else rng.randint(2, 8)
                 votes = [[c[0] for c in v] for v in sp_votes(rng, axis, nn)]
